@@ -134,6 +134,8 @@ PROPS = {
         explanation="C12.idx_inv (index integrity + heap order for every sequence of critical sections), cancel_removes_exactly, never_early, at_most_once, cancel_before_due_never_starts, root_is_min",
     ),
     "C01": dict(
+        # only when the instrumented harness cannot be built against /repo: public API, default 10 s lease (about 40 s)
+        api_fallback=[dict(comp="lockapi", decisive=lambda d: d["op"].startswith("mon C01"), timeout=300)],
         lean=["GolibsVerif.Props.C01", "GolibsVerif.Props.C01Exec"],
         seq=[],
         go_cmds=("seq", "conc"),
@@ -150,19 +152,27 @@ PROPS = {
         explanation=LOCK_EXPL["C01"],
     ),
     "C04": dict(
+        # only when the instrumented harness cannot be built against /repo: public API, default 10 s lease (about 40 s)
+        api_fallback=[dict(comp="lockapi", decisive=lambda d: d["op"].startswith("mon C04"), timeout=300)],
         lean=["GolibsVerif.Props.C04", "GolibsVerif.Props.C04Live", "GolibsVerif.Props.C01Exec"],
         seq=[],
         go_cmds=("seq", "conc"),
         conc=[dict(comp="lock", driver="locktrace", args=["-focus", "C04"],
                    decisive=lambda d: d["op"].startswith("mon C04"),
                    ignore=lambda d: d["op"].startswith("mon ") and not d["op"].startswith("mon C04")),
-              dict(comp="lockloss", driver="monitors", decisive=lambda d: d["op"].startswith("mon C04"))],
+              dict(comp="lockloss", driver="monitors", decisive=lambda d: d["op"].startswith("mon C04")),
+              # real in-memory storage, real time: cancellation exactly at the hand-off must leave the lock and the
+              # storage usable (lockrt's cancel-at-handoff scenario)
+              dict(comp="lockrt", driver="monitors", decisive=lambda d: d["op"].startswith("mon C04"),
+                   ignore=lambda d: not d["op"].startswith("mon C04"))],
         rule=LOCK_RULE + " Plus three Go-side scenarios on the real in-memory store (component lockloss): the lock record is deleted while the lock is held (lease lost — outside the model's lease assumption) and the holder unlocks: Unlock must return, a caller queued on the same Locker must be handed the lock, the Locker must be able to acquire again, no record may be left",
         assumptions=LOCK_ASSUME,
         trusted=LOCK_TRUSTED,
         explanation=LOCK_EXPL["C04"],
     ),
     "C05": dict(
+        # only when the instrumented harness cannot be built against /repo: public API, default 10 s lease (about 40 s)
+        api_fallback=[dict(comp="lockapi", decisive=lambda d: d["op"].startswith("mon C05"), timeout=300)],
         generated=True,   # Generated/LockConsts.lean: renewal / retry divisors, default lease, where the deadline is computed
         lean=["GolibsVerif.Props.C05", "GolibsVerif.Props.C05Timed", "GolibsVerif.Props.C05Cell", "GolibsVerif.Props.C01Exec"],
         seq=[],
